@@ -69,7 +69,7 @@ func ZZ_C09_bls12381_SetBytes_length_vs_flag() {
 // uncompressed encoding re-serialises to the parsed bytes); an accepted infinity encoding has no
 // stray flag or payload bit; an accepted uncompressed encoding has all three flag bits clear.
 //
-//zz: prop=C09 tier=quick backend=bv use=ffuf,ffsign,ffrecord,g1member maxpaths=100000 budget=300
+//zz: prop=C09 also=C02 tier=quick backend=bv use=ffuf,ffsign,ffrecord,g1member maxpaths=100000 budget=300
 func ZZ_C09_bls12381_G1_decoder_sees_exact_coordinates() {
 	b := make([]byte, G1Size)
 	zzFill("b", b)
@@ -105,7 +105,7 @@ func ZZ_C09_bls12381_G1_decoder_sees_exact_coordinates() {
 	zzAssert(zzBytesEq(ff.ZZDecoded[1], b[ff.FpSize:G1Size]), "G1 uncompressed: y bytes reach the range check unmodified")
 }
 
-//zz: prop=C09 tier=quick backend=bv use=ffuf,ffsign,ffrecord,g1member maxpaths=100000 budget=300
+//zz: prop=C09 also=C02 tier=quick backend=bv use=ffuf,ffsign,ffrecord,g1member maxpaths=100000 budget=300
 func ZZ_C09_bls12381_G2_decoder_sees_exact_coordinates() {
 	b := make([]byte, G2Size)
 	zzFill("b", b)
